@@ -25,7 +25,7 @@ void snap () {
 }
 mapping scripts = ([]);
 mapping pols = ([ "cf" : ([ "u1" : "s:u1", "u2" : "s:u2", "bb" : "s:Backbone", "root" : "s:Root", "odd" : "i:0" ]),
-                  "vs" : ([ ]), "co" : ([ ]), "vb" : ([ ]) ]);
+                  "vs" : ([ ]), "co" : ([ ]), "vb" : ([ ]), "vo" : ([ ]) ]);
 mapping uid_names = ([ ]);      // "root" / "bb" -> what get_root_uid() / get_bb_uid() of the master answer now
 void set_uid_name (string kind, string n) { uid_names[kind] = n; }
 string uid_name (string kind) { return uid_names[kind]; }
